@@ -172,3 +172,132 @@ Proof.
   pose proof (errb_nonneg xs Hxs) as Hen.
   apply Rabs_le. split; nra.
 Qed.
+
+(* ---------------------------------------------------------------- peak bound in the float layer *)
+
+Local Open Scope R_scope.
+
+(* one step emits floor(rate), floor(rate)+1, or - only when rate + remainder is rounded UP to
+   the integer floor(rate)+2 - that integer *)
+Lemma fstep_bounds x rem :
+  is_finite x = true -> is_finite rem = true ->
+  0 <= B2R x <= IZR (2 ^ 52) -> 0 <= B2R rem < 1 ->
+  let o := snd (fstep x rem) in
+  (Zfloor (B2R x) <= o <= Zfloor (B2R x) + 2)%Z /\
+  (o = (Zfloor (B2R x) + 2)%Z -> rnd (B2R x + B2R rem) = IZR (Zfloor (B2R x) + 2) /\ B2R x + B2R rem < IZR (Zfloor (B2R x) + 2)).
+Proof.
+  intros Fx Fr Hx Hr o.
+  destruct (fstep_R x rem Fx Fr Hx Hr) as (_ & Ho & _ & _). fold o in Ho.
+  set (s := rnd (B2R x + B2R rem)) in *.
+  pose proof (Zfloor_lb (B2R x)) as Hl. pose proof (Zfloor_ub (B2R x)) as Hu.
+  assert (Hz0 : (0 <= Zfloor (B2R x))%Z) by (apply Zfloor_lub; simpl; lra).
+  assert (Hz1 : (Zfloor (B2R x) <= 2 ^ 52)%Z) by (apply le_IZR; lra).
+  set (N := (Zfloor (B2R x) + 2)%Z).
+  assert (HN : B2R x + B2R rem < IZR N) by (unfold N; rewrite plus_IZR; lra).
+  assert (Hs_lo : B2R x <= s).
+  { unfold s. rewrite <- (rnd_float x) at 1. apply rnd_le. lra. }
+  assert (Hs_hi : s <= IZR N).
+  { unfold s. rewrite <- (rnd_Z N) by (unfold N; lia). apply rnd_le. lra. }
+  assert (Lo : (Zfloor (B2R x) <= Zfloor s)%Z) by (apply Zfloor_le; exact Hs_lo).
+  assert (Hi : (Zfloor s <= N)%Z) by (rewrite <- (Zfloor_IZR N); apply Zfloor_le; exact Hs_hi).
+  rewrite Ho. split; [unfold N in Hi; lia|].
+  intros E. split; [|exact HN].
+  fold N in E. pose proof (Zfloor_lb s) as Hsl. rewrite E in Hsl. lra.
+Qed.
+
+(* ---- in fact the step never emits floor(rate)+2: rate + remainder is never rounded up to it *)
+
+Notation FLT64 := (FLT_exp (SpecFloat.emin prec emax) prec).
+
+Lemma fexp64_FLT : fexp64 = FLT64.
+Proof. reflexivity. Qed.
+
+Lemma format_float (f : f64) : generic_format radix2 fexp64 (B2R f).
+Proof. apply generic_format_B2R. Qed.
+
+Lemma format_one : generic_format radix2 fexp64 1.
+Proof. change 1 with (IZR 1). apply format_Z. lia. Qed.
+
+(* a float below 1 is at most 1 - 2^-53 *)
+Lemma below_one (f : f64) : B2R f < 1 -> B2R f <= 1 - bpow radix2 (-53).
+Proof.
+  intros H.
+  pose proof (pred_ge_gt radix2 fexp64 (B2R f) 1 (format_float f) format_one H) as P.
+  change 1 with (bpow radix2 0) in P at 1. rewrite pred_bpow in P.
+  change (fexp64 0) with (-53)%Z in P. change (bpow radix2 0) with 1 in P. exact P.
+Qed.
+
+Lemma not_rounded_up (x rem : f64) :
+  0 <= B2R x <= IZR (2 ^ 52) -> 0 <= B2R rem < 1 ->
+  ~ (rnd (B2R x + B2R rem) = IZR (Zfloor (B2R x) + 2)).
+Proof.
+  intros Hx Hr E.
+  set (y := B2R x + B2R rem) in *.
+  pose proof (Zfloor_lb (B2R x)) as Hl. pose proof (Zfloor_ub (B2R x)) as Hu.
+  rewrite plus_IZR in E.
+  pose proof (error_le_half_ulp radix2 fexp64 (fun z => negb (Z.even z)) y) as H.
+  change (round radix2 fexp64 (Znearest (fun z : Z => negb (Z.even z))) y) with (rnd y) in H.
+  rewrite E in H.
+  assert (Hy : y < IZR (Zfloor (B2R x)) + 2) by (unfold y; lra).
+  rewrite Rabs_pos_eq in H by lra.
+  destruct (Rlt_le_dec (B2R x) 1) as [Hx1|Hx1].
+  - (* rate below 1: floor is 0, the sum would have to be rounded up to 2 *)
+    assert (Hz : Zfloor (B2R x) = 0%Z) by (apply Zfloor_imp; simpl; lra).
+    rewrite Hz in *. simpl (IZR 0) in *.
+    pose proof (below_one x Hx1) as Bx. pose proof (below_one rem ltac:(lra)) as Br.
+    assert (U : ulp radix2 fexp64 y <= bpow radix2 (-52)).
+    { destruct (Rlt_le_dec y 1) as [Hy1|Hy1].
+      - (* below 1 the rounding is at most 1, not 2 *)
+        exfalso. assert (rnd y <= 1) by (rewrite <- rnd_1; apply rnd_le; lra). lra.
+      - rewrite ulp_neq_0 by lra. apply bpow_le. unfold cexp.
+        assert (M : mag radix2 y = 1%Z :> Z).
+        { apply mag_unique. rewrite Rabs_pos_eq by lra. simpl. lra. }
+        rewrite M. reflexivity. }
+    assert (P : bpow radix2 (-52) = 2 * bpow radix2 (-53)).
+    { change (-52)%Z with (-53 + 1)%Z. rewrite bpow_plus. change (bpow radix2 1) with 2. ring. }
+    assert (0 < bpow radix2 (-53)) by apply bpow_gt_0.
+    unfold y in *. lra.
+  - (* rate at least 1: ulp (sum) <= 2 ulp (rate) <= 2 (next integer - rate) *)
+    assert (Hs : B2R x + ulp radix2 fexp64 (B2R x) <= IZR (Zfloor (B2R x)) + 1).
+    { rewrite <- succ_eq_pos by lra. rewrite <- plus_IZR.
+      apply succ_le_lt; [exact fexp64_valid|apply format_float|apply format_Z|rewrite plus_IZR; lra].
+      assert (Zfloor (B2R x) <= 2 ^ 52)%Z by (apply le_IZR; lra).
+      assert (0 <= Zfloor (B2R x))%Z by (apply Zfloor_lub; simpl; lra). lia. }
+    assert (Hmag : (1 <= mag radix2 (B2R x))%Z).
+    { apply mag_ge_bpow. rewrite Rabs_pos_eq by lra. change (bpow radix2 (1 - 1)) with 1. exact Hx1. }
+    assert (U : ulp radix2 fexp64 y <= 2 * ulp radix2 fexp64 (B2R x)).
+    { replace (2 * ulp radix2 fexp64 (B2R x)) with (ulp radix2 fexp64 (B2R x * bpow radix2 1)).
+      - rewrite fexp64_FLT. apply ulp_le; [apply FLT_exp_valid; exact prec_gt_0_64|apply FLT_exp_monotone|].
+        rewrite !Rabs_pos_eq; [|change (bpow radix2 1) with 2; lra|unfold y; lra].
+        change (bpow radix2 1) with 2. unfold y. lra.
+      - rewrite fexp64_FLT. rewrite ulp_FLT_exact_shift.
+        + change (bpow radix2 1) with 2. ring.
+        + lra.
+        + change (SpecFloat.emin prec emax + prec)%Z with (-1021)%Z. lia.
+        + change (SpecFloat.emin prec emax + prec)%Z with (-1021)%Z. lia. }
+    unfold y in *. lra.
+Qed.
+
+Theorem fstep_upper x rem :
+  is_finite x = true -> is_finite rem = true ->
+  0 <= B2R x <= IZR (2 ^ 52) -> 0 <= B2R rem < 1 ->
+  (Zfloor (B2R x) <= snd (fstep x rem) <= Zfloor (B2R x) + 1)%Z.
+Proof.
+  intros Fx Fr Hx Hr.
+  destruct (fstep_bounds x rem Fx Fr Hx Hr) as [[B1 B2] B3].
+  destruct (Z.eq_dec (snd (fstep x rem)) (Zfloor (B2R x) + 2)) as [E|E]; [|lia].
+  exfalso. apply (not_rounded_up x rem Hx Hr). apply B3. exact E.
+Qed.
+
+(* the property's own bound, in the float layer: a tick whose float rate is not above the peak
+   tick's emits at most one more than the peak tick *)
+Theorem peak_f64_one xk remk xp remp :
+  is_finite xk = true -> is_finite remk = true -> is_finite xp = true -> is_finite remp = true ->
+  0 <= B2R xk <= IZR (2 ^ 52) -> 0 <= B2R xp <= IZR (2 ^ 52) -> 0 <= B2R remk < 1 -> 0 <= B2R remp < 1 ->
+  B2R xk <= B2R xp ->
+  (snd (fstep xk remk) <= snd (fstep xp remp) + 1)%Z.
+Proof.
+  intros Fk Frk Fp Frp Hk Hp Hrk Hrp Hle.
+  pose proof (fstep_upper xk remk Fk Frk Hk Hrk) as K. pose proof (fstep_upper xp remp Fp Frp Hp Hrp) as P.
+  assert (M : (Zfloor (B2R xk) <= Zfloor (B2R xp))%Z) by (apply Zfloor_le; exact Hle). lia.
+Qed.
